@@ -180,9 +180,10 @@ class Ctx:
                 "rustc 1.97 nightly: type checking, MIR construction, const evaluation, trait resolution",
                 "espada-facts driver serialisation", "python rule library under /verif/sa and /verif/rules",
                 "normalisation passes over the fact base (sa/desugar.py: std combinators / iterator pipelines with closures; "
-                "sa/inline.py: private helpers, jump threading; sa/placefwd.py: single-definition element references): on the reference tree the only body they rewrite is the `?` of the flop iterator's `Iterator::next` (see normalised_functions)"],
+                "sa/inline.py: private helpers, jump threading; sa/placefwd.py: single-definition element references; sa/unroll.py: loops over short literal arrays of cases, known function pointers): on the reference tree the only body they rewrite is the `?` of the flop iterator's `Iterator::next` (see normalised_functions)"],
             "normalised_functions": {k: {"desugared": sorted(getattr(v, "desugared", {})), "inlined_into": sorted(getattr(v, "inlined", {})),
-                                         "forwarded_refs": sorted(getattr(v, "forwarded", {}))}
+                                         "forwarded_refs": sorted(getattr(v, "forwarded", {})),
+                                         "unrolled_case_loops": sorted(getattr(v, "unrolled", {}))}
                                      for k, v in self._facts.items()},
             "fact_configs": {k: os.path.basename(v.fact_dir) for k, v in self._facts.items()},
             "notes": self.notes,
